@@ -266,6 +266,10 @@ func runC16(ctx *Ctx) error {
 			} else {
 				c.Challenge = r.StringFrom(alnum+"+/=", 1+r.Intn(24))
 			}
+			if r.Intn(8) == 0 {
+				// the challenge is everything behind ";PQ: ", white space at its start included
+				c.Challenge = []string{" ", "  ", "\t", " \t "}[r.Intn(4)] + c.Challenge
+			}
 			if r.Intn(6) == 0 {
 				// a challenge may be any text: one that ends like a prompt, a comment or a list
 				c.Challenge += []string{">", "]", ";", " >", "|x", "$"}[r.Intn(6)]
